@@ -318,9 +318,12 @@ class ConnectionState:
         messages, updates = await self.session.fetch_messages(
             self.selected, cmd.sequence_set, set_seen)
         resp = ResponseOk(cmd.tag, cmd.command + b' completed.')
+        tells_flags = _flags_attr in cmd.attributes
         for msg_seq, msg in messages:
             if msg.expunged:
                 resp.code = ResponseCode.of(b'EXPUNGEISSUED')
+            elif tells_flags:
+                self.selected.told(msg.uid, msg.permanent_flags)
             msg_attrs = MessageAttributes(msg, self.selected, cmd.attributes)
             fetch_resp = FetchResponse(msg_seq, msg_attrs,
                                        writing_hook=msg_attrs.load_hook())
